@@ -188,11 +188,16 @@ func accessPathOf(info *types.Info, e ast.Expr) accessPath {
 			e = x.X
 		case *ast.CallExpr:
 			// value accessor method on an access path: x.AsStruct() etc.
+			// (As<Kind>() of ast.Type, Last() of ast.Path …). Copying methods
+			// (DeepCopy) and everything else yield fresh values: no path.
 			if sel, ok := x.Fun.(*ast.SelectorExpr); ok && len(x.Args) == 0 {
 				if s := info.Selections[sel]; s != nil && s.Kind() == types.MethodVal {
-					steps = append(steps, pathStep{deref: true})
-					e = sel.X
-					continue
+					m := s.Obj()
+					if m.Pkg() != nil && strings.HasPrefix(m.Pkg().Path(), modulePath) && (strings.HasPrefix(m.Name(), "As") || m.Name() == "Last" || m.Name() == "RemoveLast") && m.Name() != "AsRef" && m.Name() != "AsType" {
+						steps = append(steps, pathStep{deref: true})
+						e = sel.X
+						continue
+					}
 				}
 			}
 			return accessPath{}
